@@ -4,6 +4,7 @@ import (
 	"fmt"
 	"go/token"
 	"go/types"
+	"strings"
 
 	"golang.org/x/tools/go/ssa"
 )
@@ -13,7 +14,7 @@ func init() {
 		ID:        "C20",
 		Roots:     []string{"asserts"},
 		Technique: "taint-to-size-use enumeration over package asserts with guarded-sink reachability (two-sided bound) on the SSA CFG; guarded-sink on the stream decoder's size limits; who-may-write of the limit fields",
-		Explanation: "Structural necessary conditions for 'malformed input is rejected with an error and never crashes' (the round-trip clause is not decided): (R1) in the stream decoder every read is size-limited: Decoder.Decode reaches its body allocation and readExact(length) only across length <= the per-type or default maximum, calls readUntil only with the decoder's maxHeadersSize/maxSigSize, readUntil cannot grow its window again without passing size <= maxSize, and the three limit fields are written only by the two constructors, from the Max*Size constants; (R2) every integer parsed from input in package asserts (checkInt*/atoi/strconv) that reaches an allocation size, a slice bound, an index or a read size is bounded from below and from above on every path to that use; (R3) in Decode (non-stream) every slice of the input whose bound comes from bytes.Index/LastIndex is reached only across index != -1; (R4) Encode writes content, the same separator Decode splits on, then the signature.",
+		Explanation: "Structural necessary conditions for 'malformed input is rejected with an error and never crashes' (the round-trip clause is not decided): (R1) in the stream decoder every read is size-limited: Decoder.Decode reaches its body allocation and readExact(length) only across length <= the per-type or default maximum, calls readUntil only with the decoder's maxHeadersSize/maxSigSize, readUntil cannot grow its window again without passing size <= maxSize, and the three limit fields are written only by the two constructors, from the Max*Size constants; (R2) every integer parsed from input in package asserts (checkInt*/atoi/strconv) that reaches an allocation size, a slice bound, an index or a read size is bounded from below and from above on every path to that use; (R3) in Decode (non-stream) every slice of the input whose bound comes from bytes.Index/LastIndex is reached only across index != -1; (R4) Encode writes content, the same separator Decode splits on, then the signature; (R5) in the input parsers (headers.go, asserts.go) a constant-index access of a string or slice is reached only across a test that it is long enough, and a buffer returned by the stream decoder's readUntil/readExact (valid only until the next read) is never used after a later read.",
 		NotDecided: "round-trip equality (value-level); absence of every panic or hang inside parseHeaders and the per-type assemblers (no sound static argument in reach: the Go compiler's list of unproven bounds checks for the package is the honest measure of what R1-R3 leave open); nesting depth of header values.",
 		Run:        runC20,
 	})
@@ -207,6 +208,151 @@ func runC20(c *Ctx) {
 			Not(Cmp("idx==-1", VIs(src), token.EQL, VConstInt(-1))),
 			Cmp("idx>=0", VIs(src), token.GEQ, VConstInt(0)),
 		}}, nil)
+	}
+
+	c.Rule("C20-R5", "G", "input parsing (headers.go, asserts.go): a constant-index access x[K] of a string or slice is reached only across a test that x is long enough (len(x) > K, len(x) != 0, x != \"\", HasPrefix(x, ...)); a buffer returned by readUntil/readExact is not used after a later read", 2)
+	nIdx := 0
+	for _, fn := range P.FuncsIn("asserts") {
+		file := P.Fset.Position(fn.Pos()).Filename
+		nm := SSAFuncName(fn)
+		if !strings.HasSuffix(file, "/asserts/headers.go") && nm != "asserts.Decode" && nm != "asserts.(*Decoder).Decode" && nm != "asserts.assemble" {
+			continue
+		}
+		for _, b := range fn.Blocks {
+			for _, in := range b.Instrs {
+				var base, idx ssa.Value
+				switch x := in.(type) {
+				case *ssa.Index:
+					base, idx = x.X, x.Index
+				case *ssa.IndexAddr:
+					base, idx = x.X, x.Index
+				case *ssa.Lookup:
+					if _, isMap := x.X.Type().Underlying().(*types.Map); !isMap {
+						base, idx = x.X, x.Index
+					}
+				}
+				if base == nil {
+					continue
+				}
+				k, isC := ConstInt(idx)
+				if !isC {
+					continue
+				}
+				switch t := base.Type().Underlying().(type) {
+				case *types.Pointer:
+					if _, isArr := t.Elem().Underlying().(*types.Array); isArr {
+						continue // fixed-size array (varargs backing store, ...)
+					}
+				case *types.Array:
+					continue
+				}
+				if _, isGlobalLoad := Strip(base).(*ssa.Global); isGlobalLoad {
+					continue
+				}
+				if u, ok := Strip(base).(*ssa.UnOp); ok {
+					if _, isG := u.X.(*ssa.Global); isG {
+						continue // package-level constant tables (nl, nlnl, listChar)
+					}
+				}
+				if _, isConst := Strip(base).(*ssa.Const); isConst {
+					continue
+				}
+				nIdx++
+				c.touch(fn)
+				X := VIs(base)
+				lenX := VLen(X)
+				longEnough := Clause{
+					Cmp(fmt.Sprintf("len(x)>%d", k), lenX, token.GTR, func(v ssa.Value) bool { n, ok := ConstInt(v); return ok && n >= k }),
+					Cmp(fmt.Sprintf("len(x)>=%d", k+1), lenX, token.GEQ, func(v ssa.Value) bool { n, ok := ConstInt(v); return ok && n >= k+1 }),
+					Cmp(fmt.Sprintf("len(x)==n>%d", k), lenX, token.EQL, func(v ssa.Value) bool { n, ok := ConstInt(v); return ok && n >= k+1 }),
+					TrueRes("strings.HasPrefix(x, ...)", true, 0, CallWhere(ToFn(P.FuncObj("strings.HasPrefix")), 0, X)),
+					TrueRes("bytes.HasPrefix(x, ...)", true, 0, CallWhere(ToFn(P.FuncObj("bytes.HasPrefix")), 0, X)),
+				}
+				if k == 0 {
+					longEnough = append(longEnough,
+						Not(Cmp("len(x)==0", lenX, token.EQL, VConstInt(0))),
+						Not(Cmp("x==\"\"", X, token.EQL, VConstStr(""))))
+				}
+				c.Guarded(fmt.Sprintf("%s#const-index[%d]#%d", SSAFuncName(fn), k, nIdx), fn, in, []Clause{longEnough}, &GOpt{NoVacuity: true})
+			}
+		}
+	}
+	// read buffers are not used after a later read
+	readObjs := []*types.Func{readUntilObj, readExactObj, peekObj}
+	reads := CallSites(dec, readObjs...)
+	for i, r1 := range reads {
+		alias := map[ssa.Value]bool{}
+		var addAlias func(v ssa.Value)
+		addAlias = func(v ssa.Value) {
+			if v == nil || alias[v] {
+				return
+			}
+			alias[v] = true
+			if refs := v.Referrers(); refs != nil {
+				for _, r := range *refs {
+					switch x := r.(type) {
+					case *ssa.Slice:
+						if x.X == v {
+							addAlias(x)
+						}
+					case *ssa.ChangeType:
+						addAlias(x)
+					}
+				}
+			}
+		}
+		if cv := r1.Value(); cv != nil && cv.Referrers() != nil {
+			for _, r := range *cv.Referrers() {
+				if ex, ok := r.(*ssa.Extract); ok && ex.Index == 0 {
+					addAlias(ex)
+				}
+			}
+		}
+		bad := ""
+		for v := range alias {
+			if v.Referrers() == nil {
+				continue
+			}
+			for _, use := range *v.Referrers() {
+				if ci, ok := use.(*ssa.Call); ok {
+					if bi, ok := ci.Call.Value.(*ssa.Builtin); ok && (bi.Name() == "len" || bi.Name() == "cap") {
+						continue
+					}
+				}
+				if _, isAlias := use.(ssa.Value); isAlias && alias[use.(ssa.Value)] {
+					continue
+				}
+				if _, isDbg := use.(*ssa.DebugRef); isDbg {
+					continue
+				}
+				// a phi consumes the value on the incoming edge: the use is at the end of that predecessor
+				useAt := []ssa.Instruction{use}
+				if phi, ok := use.(*ssa.Phi); ok {
+					useAt = nil
+					for ei, e := range phi.Edges {
+						if e == v {
+							pb := phi.Block().Preds[ei]
+							useAt = append(useAt, pb.Instrs[len(pb.Instrs)-1])
+						}
+					}
+				}
+				for _, r2 := range reads {
+					if r2 == r1 {
+						continue
+					}
+					hit := false
+					for _, u := range useAt {
+						if (ReachQ{Fn: dec, From: LocOf(r2), Sink: SinkIs(u)}).Run().Found {
+							hit = true
+						}
+					}
+					if (ReachQ{Fn: dec, From: LocOf(r1), Sink: SinkIs(r2)}).Run().Found && hit {
+						bad = fmt.Sprintf("the buffer returned by the read at %s is used at %s after the read at %s", P.Pos(r1.Pos()), P.Pos(use.Pos()), P.Pos(r2.Pos()))
+					}
+				}
+			}
+		}
+		c.Check(bad == "", fmt.Sprintf("asserts.(*Decoder).Decode#read-buffer-lifetime#%d", i+1), r1.Pos(), "not used after a later read (the returned slice aliases the bufio buffer)", bad+": readUntil/readExact results are only valid until the next reading call; the bytes may have been overwritten, so the decoded content differs from what was sent")
 	}
 
 	c.Rule("C20-R4", "K", "Encode writes content, nlnl, signature - the separator Decode splits on", 1)
